@@ -1,10 +1,39 @@
 import MahfModel.Model.PopStack
 open MahfModel
 
+/-- Kind of the first deviation between what the plain stack says and what the implementation did. -/
+def devClass : List Sexp → List Sexp → String
+  | e :: es, o :: os =>
+    if Sexp.beq e o then devClass es os
+    else
+      let isPanic (x : Sexp) : Bool :=
+        match x with
+        | .atom "panic" => true
+        | .list (.atom "panic" :: _) => true
+        | _ => false
+      if isPanic o && !isPanic e then "panic"
+      else if isPanic e && !isPanic o then "no-panic"
+      else if Sexp.beq o (.list [.atom "e", .atom "exec"]) then "err"
+      else if Sexp.beq e (.atom "none") || Sexp.beq o (.atom "none") then "none"
+      else "wrong-value"
+  | _, _ => "count"
+
+def outsOf (x : Sexp) : List Sexp :=
+  match x with
+  | .list (o :: _) => (Sexp.tagged? "outs" o).getD []
+  | _ => []
+
+/-- K: the code-shaped model (fed with the witnesses read off the real run: order of equal objective values in a
+split, stack height after a component panic) reproduces the implementation's output exactly.
+O: the implementation's output is what the plain stack gives for the same history and witnesses. -/
 def c04 (input implOut : Sexp) : Option Verdict := do
-  let (model, spec) ← PopStack.handleCase input
+  let (model, spec) ← PopStack.handleCase input implOut
   let agree := Sexp.beq model implOut
   let holds := Sexp.beq spec implOut
-  pure { agree, holds, cls := if holds then "-" else "wrong-value", model }
+  let cls :=
+    if holds then "-"
+    else if (outsOf spec).map Sexp.render == (outsOf implOut).map Sexp.render then "stack"
+    else devClass (outsOf spec) (outsOf implOut)
+  pure { agree, holds, cls, model }
 
 def main : IO Unit := driverMain (respond c04)
